@@ -198,10 +198,12 @@ def expectedStopSkel : List String := [
   "end"]
 
 def expectedTimerSkel : List String := [
+  "with self._lock",
   "if not self._running.is_set()", "return False", "end",
   "self._timer = self.timer_impl(interval=self._interval, function=self._check_for_life_signs)",
   "self._timer.daemon = True",
   "self._timer.start()",
+  "end",
   "return True"]
 
 def expectedRaiseSkel : List String := [
@@ -239,6 +241,7 @@ def expectedReadBufferSkel : List String := [
 def expectedOpenCalls : List String := [
   "self._io.open()", "self._send_handshake()",
   "self._wait_for_connection_state(state=Stateful.OPEN)",
+  "self._io.close()",                                   -- only on a failed handshake (C08)
   "self.heartbeat.start(self._exceptions)"]
 
 def expectedCloseCalls : List String := [
